@@ -10,7 +10,7 @@
 (*   ncalls, rnum, rden  calls of random.expovariate before the yield, rate *)
 (*   inc                 (input) the increment the scripted expovariate returned                     *)
 (*   issue, ws, we, ret  the fake client's log on the virtual clock         *)
-(*   ok, w, unit, ext    (input) the scripted outcome                       *)
+(*   ok, w, unit, ext    (input) the scripted outcome (ok = success; w, unit as they came back: 0 "ops" for an exception)  *)
 (*   nsamples, s         samples recorded for this request, the first one   *)
 (* For every event TLC evaluates                                           *)
 (*   L1: the C04_ / C05_ clauses of ClientLoop.tla on the recorded request  *)
@@ -51,7 +51,7 @@ ModelStep(c, s, e) ==
         s2 == IssueStep(SleepStep(s1, 0))   \* e.ext: the event was set when the runner returned (during the wait or the request)
         s3 == WireStartStep(s2, e.ws - e.issue)
         s4 == WireEndStep(s3, e.we - e.ws)
-        s5 == ReturnStep(c, s4, e.ret - e.we, e.ok, e.w, e.ext)
+        s5 == ReturnStep(c, s4, e.ret - e.we, e.ok, e.w, e.unit, e.ext)
         s6 == AfterStep(c, s5)
     IN IF s6.pc = "aborted" THEN s6 ELSE RecordStep(c, s6)
 
